@@ -144,7 +144,7 @@ def run_check(spec, tier, seed):
         vacuity.append("a canary assertion (false, placed after the precondition) was not refuted: "
                        "contradictory precondition or unreachable body")
     min_obl = getattr(spec, 'MIN_OBLIGATIONS', {}).get(tier, 1)
-    if getattr(spec, 'DEDUCTIVE', []) and summ['obligations'] < min_obl:
+    if getattr(spec, 'DEDUCTIVE', []) and summ['obligations'] < min_obl and not summ['undecided']:
         vacuity.append("only %d obligations generated, contract files record at least %d" % (summ['obligations'], min_obl))
     for u in summ['undecided']:
         line = "UNDECIDED obligation=%s reason=%s" % (u['obligation'], u['reason'])
